@@ -285,6 +285,81 @@ def build(rnd, k):
     return m, entries, probes, slots, sigs, goff
 
 
+def duptype_module(rnd):
+    """A defined table whose functions all have ONE structural signature but are declared through DIFFERENT (duplicate) entries of the type
+    section, probed by call_indirect naming every one of those entries: WebAssembly compares function types structurally, so every
+    probe reaches every initialised slot."""
+    m = Module()
+    pt = rnd.choice(TYPES)
+    nf = rnd.randint(2, 4)
+    first = m.add_type([pt, I32], [I32])
+    tidx = [first]
+    for _ in range(nf - 1 + rnd.randint(0, 1)):
+        m.types.append(m.types[first])
+        tidx.append(len(m.types) - 1)
+    if rnd.random() < 0.5:           # an unrelated entry in between does not change anything
+        m.add_type([I64], [])
+    tsize = nf + rnd.randint(1, 3)
+    m.tables.append((tsize, tsize))
+    if rnd.random() < 0.5:
+        m.exports.append(('tbl', 'table', 0))
+    for j in range(nf):
+        m.add_func([pt, I32], [I32], [], [('local.get', 1), ('i32.const', 1000 * (j + 1)), ('i32.add',)])
+        m.funcs[-1].type_idx = tidx[j]
+    order = list(range(nf))
+    rnd.shuffle(order)
+    if rnd.random() < 0.4:
+        order = order[:-1] + [order[0]]          # one function twice, one not in the table at all
+    m.elems = [(0, [('i32.const', 0)], order)]
+    names = []
+    for t in tidx:
+        name = 'via%d' % t
+        m.add_func([I32, pt, I32], [I32], [], [('local.get', 1), ('local.get', 2), ('local.get', 0), ('call_indirect', t, 0)], export=name)
+        names.append(name)
+    return m, names, len(order)          # only initialised slots are called (precondition of the property)
+
+
+def duptype_part(chk, w2c2, builds, n):
+    def one(k):
+        rnd = env.rng('c04-duptype', k)
+        m, names, tsize = duptype_module(rnd)
+        b = m.encode(wasm.rot_enc(k))
+        plan = e2e.Plan(m)
+        lines = ['I 0']
+        for name in names:
+            for sl in range(tsize):
+                lines.append('c 0 %d %s 0x0 %s' % (plan.fk(name), hex(sl), hex(rnd.randint(0, 900))))
+        script = '\n'.join(lines) + '\n'
+        d = env.subdir('c04-dt-%d' % k)
+        st, ref, _ = e2e.run_ref(b, plan, script, d)
+        outs = {}
+        if st == 'ok':
+            for tag, cc, cflags in builds:
+                outs[tag] = e2e.build_and_run(w2c2, b, plan, script, os.path.join(d, tag), cc=cc, cflags=cflags, opts=progs.opts_for(k))[:2]
+        shutil.rmtree(d, ignore_errors=True)
+        return k, b, script, st, ref, outs
+
+    for k, b, script, st, ref, outs in env.pmap(one, range(n)):
+        if st != 'ok':
+            chk.inconclusive('duplicate-type module %d: reference %s: %s' % (k, st, str(ref)[:300]))
+            continue
+        files = {'module.wasm': b, 'script.txt': script}
+        chk.observe('duplicate_type_modules')
+        for l in ref:
+            pc = diff.parse_call(l)
+            if pc:
+                chk.ev()
+                chk.observe('duplicate_type_calls_trap' if 'trap' in pc[3] else 'duplicate_type_calls_ok')
+        for tag, (cst, out) in outs.items():
+            if cst != 'ok':
+                chk.violation('C04:duplicate-types:%s' % cst, 'module %d failed at %s (%s): %s' % (k, cst, tag, str(out)[:1200]), files)
+                continue
+            for step, kind, ra, rb, i in diff.compare(ref, out, {}):
+                chk.violation('C04:duplicate-types:%s' % kind, 'module %d build %s line %d: reference "%s" vs compiled "%s"' % (k, tag, i, ra[:300], rb[:300]),
+                              dict(files, reference_out='\n'.join(ref), compiled_out='\n'.join(out)))
+                break
+
+
 def nonnan_bits(rnd, t):
     if t == I32:
         return rnd.choice(gen.B32) if rnd.random() < 0.5 else rnd.getrandbits(32)
@@ -374,6 +449,7 @@ def main(chk):
                               dict(files, reference_out='\n'.join(ref), compiled_out='\n'.join(out)))
         if k < 2:
             chk.sample({'module': k, 'bytes': len(b), 'lines': ref[1:6]})
+    duptype_part(chk, w2c2, builds, 16 if quick else 300)
     chk.observe('modules', nmods, 'set')
     chk.observe('generator_rejected', rejected, 'set')
     if rejected * 100 > nmods:
